@@ -115,6 +115,8 @@ type Net struct {
 	// UnixFailNext: the next n writes to the path fail with ECONNREFUSED
 	UnixFailNext map[string]int
 	UnixOpen     map[string]bool
+	// UnixStallUntil: writes to the path block until this virtual instant (use StallUnix)
+	UnixStallUntil map[string]int64
 	// DialFailNext: the next n attempts to create a connected UDP socket fail with EMFILE
 	DialFailNext int
 }
@@ -127,7 +129,7 @@ type UnixWrite struct {
 
 func newNet(w *World) *Net {
 	return &Net{w: w, peers: map[string]func(string, []byte){}, down: map[string]bool{}, Stats: map[string]int{},
-		ephemeral: 50000, UnixSink: map[string][]UnixWrite{}, UnixFailNext: map[string]int{}, UnixOpen: map[string]bool{},
+		ephemeral: 50000, UnixSink: map[string][]UnixWrite{}, UnixFailNext: map[string]int{}, UnixOpen: map[string]bool{}, UnixStallUntil: map[string]int64{},
 		ToAgent: NetFaults{LatMin: 200 * time.Microsecond}, FromAgent: NetFaults{LatMin: 200 * time.Microsecond}}
 }
 
@@ -553,12 +555,31 @@ func (c *UnixConn) Read(b []byte) (int, error) {
 	return n, err
 }
 
+// unixStalled runs the check on the simulator goroutine.
+//
+//go:norace
+func unixStalled(path string) bool {
+	stalled := false
+	vsim.Call(func() {
+		w := W
+		if until, ok := w.Net.UnixStallUntil[path]; ok && w.Sim.NowNS() < until {
+			stalled = true
+		}
+	})
+	return stalled
+}
+
 //go:norace
 func (c *UnixConn) Write(b []byte) (int, error) {
 	data := vsim.CloneBytes(b)
 	code := eOK
 	sk := c.s
 	path := c.path
+	// the receiving end is not reading and its queue is full: a unix datagram
+	// sender blocks until there is room again
+	if unixStalled(path) {
+		vsim.Block(func() bool { return !unixStalled(path) })
+	}
 	vsim.Call(func() {
 		w := W
 		if sk.closed {
@@ -587,6 +608,14 @@ func (c *UnixConn) RemoteAddr() net.Addr               { return unixAddr(c.path)
 func (c *UnixConn) SetDeadline(t time.Time) error      { return sockSetDeadline(c.s, t) }
 func (c *UnixConn) SetReadDeadline(t time.Time) error  { return sockSetDeadline(c.s, t) }
 func (c *UnixConn) SetWriteDeadline(t time.Time) error { return nil }
+
+// StallUnix makes every write to path block for d from now on (the receiver's
+// queue is full and it is not reading); blocked writers go on when it ends.
+func (n *Net) StallUnix(w *World, path string, d time.Duration) {
+	n.UnixStallUntil[path] = w.Sim.NowNS() + int64(d)
+	n.Stats["unix-stalled"]++
+	w.Sim.After(d, func() {}) // an environment event at the end of the stall wakes the writers
+}
 
 // UnixInject delivers a packet on every live unix socket dialled to path.
 func (n *Net) UnixInject(path string, data []byte) int {
